@@ -53,6 +53,9 @@ def _is_xl(val):
     return getattr(type(val), '__module__', '').startswith('xlcalculator')
 
 
+_NEVER_IN_FLOAT = ('!', ':', '$', '(', ')', ',', '"', "'", '&', '=', '<', '>', '*', '/', '^', '%', '#', '@', '[', ']', '{', '}', ';', '?')
+
+
 def _float(val=0.0):
     with NoTracing():
         if isinstance(val, B.SymbolicFloat):
@@ -71,6 +74,11 @@ def _float(val=0.0):
             if match.group("posneg") == "-":
                 ret = -ret
             return ret
+        # A character that no Python float literal can contain decides ValueError without realising the string
+        # (otherwise CrossHair enumerates the symbolic characters one value at a time).
+        for bad in _NEVER_IN_FLOAT:
+            if bad in val:
+                raise ValueError("could not convert string to float")
     elif is_symbolic_int:
         return val.__float__()
     elif xl:
